@@ -24,7 +24,7 @@ CHECKS = {
  "C19": dict(engine="Selector", level="model_checking", design="3.2, 6/C19",
    technique="TLA+ Selector spec (Covers vs selector-trie mechanism) checked by TLC; TLC-enumerated selector sets x target methods on real muxes validated against SelectorTrace.tla; config-vs-annotation equivalence as a RouterTrace formula over the Router pipeline; healthz state machine validated against the real grpc health server",
    text="TLC checks the selector trie design against Covers for all selector sets/names in scope (negative config must fail); every TLC-generated selector set is installed with ServiceConfigOption on real muxes for six target methods (sibling names, nested packages) and TLC judges bound <=> Covers; the same rule declared by config and by annotation must answer every derived request identically; /v1/healthz must report exactly the statuses set on the health server for seeded Set/Check sequences.",
-   note="Selector sets <=2 (quick) / <=3 (thorough); malformed selectors unspecified; WebSocket Watch not covered. " + TB),
+   note="Selector sets <=2 (quick) / <=3 (thorough); malformed selectors unspecified; every other selector is configured twice with different patterns; healthz is checked by GET and by Watch over WebSocket sessions. " + TB),
  "C17": dict(engine="Framing", level="model_checking", design="3.5, 6/C17",
    technique="TLA+ Framing spec (property-level Expected per ReadNext call vs read-loop mechanism at one step per r.Read) checked by TLC over every chunk schedule; TLC-generated streams read back through the real stream codecs under every composition of the wire into reads; every call validated by TLC against FramingTrace.tla",
    text="TLC explores every reader schedule (chunk sizes, (n, io.EOF) vs separate EOF, over-reads carried to the next call, every truncation) for all frame sequences in scope and checks the read loops return exactly the schedule-independent expectation (4 negative configs must fail); the same streams are then written with the real WriteNext and read with the real ReadNext of CodecProto, CodecJSON and the HttpBody chunker from a scripted reader for every composition of short wires (sampled for long ones), and TLC judges each call: result class, message bytes, exact remainder, limit, no crash.",
